@@ -109,6 +109,7 @@ type PkgSpec struct {
 	InlineExt []string
 	Opaque    []string
 	Callers   []*CallersRule
+	Axioms    []*FuncSpec
 }
 
 // CallersRule: a structural obligation over the call graph of /repo.
@@ -237,6 +238,14 @@ func parseSpecFile(path string, ps *PkgSpec, trustedFile bool) error {
 			ps.Imports[alias] = p
 		case strings.HasPrefix(t, "use "):
 			ps.Uses = append(ps.Uses, strings.Fields(t)[1:]...)
+		case strings.HasPrefix(t, "axiom "):
+			// axiom EXPR      a fact about package-level variables that holds in every state (assumed, listed)
+			text, label, _ := splitLabelTags(" " + strings.TrimPrefix(t, "axiom "))
+			fs := &FuncSpec{Key: fmt.Sprintf("axiom:%s:%d", filepath.Base(path), ln), Ghost: true, Trusted: trustedFile, File: path, Line: ln}
+			fs.Clauses = append(fs.Clauses, &Clause{Kind: KValInv, Text: "() :: " + text, Label: label, File: path, Line: ln})
+			ps.Funcs = append(ps.Funcs, fs)
+			ps.Axioms = append(ps.Axioms, fs)
+			cur = nil
 		case strings.HasPrefix(t, "callers "):
 			// callers KEY only F1, F2 #label @tags     every call of KEY in /repo sits in one of the listed functions
 			rest := strings.TrimPrefix(t, "callers ")
@@ -318,8 +327,17 @@ func parseSpecFile(path string, ps *PkgSpec, trustedFile bool) error {
 			ps.RawGo = append(ps.RawGo, "func "+rest[:eq]+" { return "+conv(rest[eq+3:])+" }")
 			cur = nil
 		case strings.HasPrefix(t, "func "):
-			cur = &FuncSpec{Key: strings.TrimSpace(strings.TrimPrefix(t, "func ")), File: path, Line: ln, Verify: true}
-			ps.Funcs = append(ps.Funcs, cur)
+			key := strings.TrimSpace(strings.TrimPrefix(t, "func "))
+			cur = nil
+			for _, x := range ps.Funcs {
+				if x.Key == key && !x.Trusted {
+					cur = x // a second block for the same function extends the first
+				}
+			}
+			if cur == nil {
+				cur = &FuncSpec{Key: key, File: path, Line: ln, Verify: true}
+				ps.Funcs = append(ps.Funcs, cur)
+			}
 		case strings.HasPrefix(t, "trusted "):
 			// trusted KEY func(params) (results)   |  trusted iface KEY func(...)
 			rest := strings.TrimPrefix(t, "trusted ")
@@ -841,6 +859,7 @@ func (ps *PkgSpec) generate(trustedDir string) error {
 		ps.InlineExt = append(ps.InlineExt, tp.InlineExt...)
 		ps.Opaque = append(ps.Opaque, tp.Opaque...)
 		ps.Callers = append(ps.Callers, tp.Callers...)
+		ps.Axioms = append(ps.Axioms, tp.Axioms...)
 	}
 	var mainBody strings.Builder
 	mainBody.WriteString(preludeGo)
@@ -859,7 +878,7 @@ func (ps *PkgSpec) generate(trustedDir string) error {
 	for _, fs := range ps.Funcs {
 		var recvDecl, paramDecl, resDecl string
 		var pnames, rnames []string
-		if strings.HasPrefix(fs.Key, "valinv:") || strings.HasPrefix(fs.Key, "typeinv:") || strings.HasPrefix(fs.Key, "heapinv:") {
+		if strings.HasPrefix(fs.Key, "valinv:") || strings.HasPrefix(fs.Key, "typeinv:") || strings.HasPrefix(fs.Key, "heapinv:") || strings.HasPrefix(fs.Key, "axiom:") {
 			for _, c := range fs.Clauses {
 				n++
 				c.GoName = fmt.Sprintf("spec_%d_%s", n, c.Kind)
